@@ -4,6 +4,7 @@
    every shape of rank >= 1 (a list of dimensions), every history (list of gradient tensors =
    index functions) and every beta in (0,1]. *)
 From Precond Require Import C12.Model C12.Proofs C12.Exec.
+From Precond Require C12.Ref C12.RefLink.
 Open Scope Q_scope.
 
 (* the minimum over a coordinate's accumulators covers the exact decayed sum of squares *)
@@ -99,3 +100,23 @@ Theorem c12_cover_lists :
     <= min_acc (map acc_of_list (run_l shape beta al gls)) ix.
 Proof. exact cover_lists. Qed.
 Print Assumptions c12_cover_lists.
+
+(* sm3._moving_averages as written in the source (C12.Ref: translated on every run and re-proved equal,
+   GenEq obligations; tensors flattened, the broadcast accumulators[0] and reduce(minimum, accumulators)
+   supplied as vectors) applied to the tabulated accumulators IS the tabulated model, for every shape,
+   beta2, accumulators and gradient -- so the cover theorems above speak about the source's formula. *)
+Theorem c12_source_moving_averages_is_model : forall (shape : list Z) (beta : Q) (a : list acc) (g : tensor),
+  C12.Ref.sm3_moving_averages beta (length shape <? 2)%nat
+      (map (fun ix => acc_at a 0 (ix_at ix 0)) (all_idx shape))
+      (map (min_acc a) (all_idx shape))
+      (map g (all_idx shape))
+  = map (moving_averages shape beta a g) (all_idx shape).
+Proof. exact C12.RefLink.source_moving_averages_is_model. Qed.
+Print Assumptions c12_source_moving_averages_is_model.
+
+(* the momentum moving average of the source: beta1 * m + w(beta1) * g, coordinate by coordinate *)
+Theorem c12_source_momentum_average : forall (beta : Q) (g m : list Q),
+  C12.Ref.sm3_moving_averages_momentum beta g m
+  = map (fun '(mm, gg) => (beta * mm + wt beta * gg)%Q) (combine m g).
+Proof. exact C12.RefLink.momentum_on_list. Qed.
+Print Assumptions c12_source_momentum_average.
